@@ -161,6 +161,22 @@ pub fn run_prop(ctx: &Ctx, sink: &mut Sink) {
         tags.push("binary");
         sink.push(Case { req, imp, tags });
     }
+    // replace mode: a command that is too long only after substitution is an error of xargs' own (status 1),
+    // not a command that cannot be run (126); the lines before it have run
+    for (s, input) in [(20usize, &b"a\nbbbbbbbbbbbb\nc\n"[..]), (24, &b"dddddddd\n"[..]), (40, &b"x\ny\nzzzzzzzzzzzzzzzzzzzzzzzz\n"[..])] {
+        let c = XCase {
+            opts: vec!["I7b7d".into(), format!("s{s}")],
+            cmd: vec![b"cmd".to_vec(), b"{}{}".to_vec(), b"{}".to_vec()],
+            input: input.to_vec(),
+            script: vec![],
+            want_sys: 0,
+        };
+        let (req, imp) = run_inproc(ctx, &c);
+        let mut tags = tags_for(&c, &imp);
+        tags.push("own-error");
+        tags.push("too-long-after-substitution");
+        sink.push(Case { req, imp, tags });
+    }
     // a word of xargs' own command line that is not valid UTF-8 (a Latin-1 file name as an initial argument):
     // passed on unchanged or refused with the status of an error of xargs' own - never a crash
     for (opts, word) in [(vec!["-n1"], &b"caf\xe9"[..]), (vec!["-n1"], &b"\xff"[..]), (vec!["-I", "{}"], &b"x\xfe{}"[..])] {
